@@ -1,9 +1,33 @@
 package main
 
-import "verif/mc/crashfs"
+import (
+	"verif/mc/common"
+	"verif/mc/crashfs"
+)
 
 // C13: term/vote storage and snapshot storage are atomic and always
 // reopenable (CRASH engine; worker dispatch and the replayer are in c12.go).
+// The enumerated programs use each storage from one caller; the library does
+// not: a leader reads the snapshot storage (to send a snapshot) while its own
+// snapshot is being written, a follower while a multi-request transfer is
+// open. That concurrent use is covered by cluster suites on the real storages
+// with Snapshot / Restore calls that take environment time: a snapshot that
+// is visible before it is complete shows there as an undecodable snapshot
+// (C10 monitor) or as a failed restart (C14).
 func init() {
-	checks["C13"] = func(prop, tier string) int { return crashfs.RunCheck(prop, tier) }
+	checks["C13"] = func(prop, tier string) int {
+		crashfs.Extra = func(prop, tier string, rep *common.Report) (map[string]any, bool, string, int) {
+			if prop != "C13" {
+				return nil, true, "", 0
+			}
+			cl := []plan{{"fileslowsnap3-d2", 60}}
+			if tier == "thorough" {
+				cl = []plan{{"fileslowsnap3-d3", 600}}
+			}
+			cov, ex, code := runClusterPlansAlso(prop, cl, rep, map[string]bool{}, []string{"C10:snapshot-undecodable", "C14"})
+			return cov, ex, "cluster part: the snapshot storage is also used by readers while a snapshot is being written (suite fileslowsnap3: real storages, Snapshot / Restore calls take environment time); a partial snapshot that becomes visible shows as C10/snapshot-undecodable or C14/restart-failed", code
+		}
+		defer func() { crashfs.Extra = nil }()
+		return crashfs.RunCheck(prop, tier)
+	}
 }
